@@ -35,8 +35,13 @@ def worker(args):
             out.append((prop, m["name"], "stale", err))
             continue
         env = dict(os.environ, CARGO_NET_OFFLINE="true", CARGO_TARGET_DIR=tgt)
-        r = subprocess.run(["cargo", "test", "--offline", "--lib", "--tests", "--no-fail-fast"], cwd=rp, env=env,
-                           stdout=subprocess.PIPE, stderr=subprocess.STDOUT, text=True, timeout=1200)
+        r = subprocess.run(["timeout", "-k", "5", "400", "cargo", "test", "--offline", "--lib", "--tests", "--no-fail-fast"], cwd=rp, env=env,
+                           stdout=subprocess.PIPE, stderr=subprocess.STDOUT, text=True)
+        if r.returncode in (124, 137):
+            subprocess.run(["pkill", "-9", "-f", root + "/target/debug/deps"])
+            out.append((prop, m["name"], "tests-hang(timeout 400s)", ""))
+            print(prop, m["name"], "tests-hang", flush=True)
+            continue
         passed = sum(int(x) for x in __import__("re").findall(r"test result: \w+\. (\d+) passed", r.stdout))
         failed = sum(int(x) for x in __import__("re").findall(r"test result: \w+\. \d+ passed; (\d+) failed", r.stdout))
         if "error: could not compile" in r.stdout or "error[E" in r.stdout:
